@@ -11,7 +11,27 @@ def mutate(rng, body, boundary):
     """Grammar mutations of a well-formed multipart body."""
     delim = b'--' + boundary
     k = rng.choice(['trunc', 'trunc', 'dropdelim', 'dupdelim', 'nocolon', 'emptyval', 'noname', 'badutf8hdr', 'badutf8val', 'junkstart',
-                    'nofinal', 'lfonly', 'extracr', 'randbyte', 'delimjunk', 'noblank', 'lowercd'])
+                    'nofinal', 'lfonly', 'extracr', 'randbyte', 'delimjunk', 'noblank', 'lowercd', 'unclosedquote', 'longopt', 'partctype', 'none'])
+    if k == 'none':
+        return body, k
+    if k == 'unclosedquote':
+        # the closing quote of an option value is missing (short and long values)
+        i = body.find(b'name="')
+        if i < 0:
+            return body + b'"', k
+        j = body.find(b'"', i + 6)
+        filler = bytes(rng.choice(b'abcdefgh xyz.-_') for _ in range(rng.choice([0, 5, 30, 60, 120])))
+        return body[:j] + filler + body[j + 1:], k
+    if k == 'longopt':
+        filler = bytes(rng.choice(b'abcdefgh xyz.-_;=') for _ in range(rng.choice([30, 80, 300])))
+        return body.replace(b'name="', b'name="' + filler, 1), k
+    if k == 'partctype':
+        # a Content-Type line on a part, with charset parameters of every kind
+        ct = rng.choice([b'text/plain', b'text/plain; charset=utf-8', b'text/plain; charset=latin1', b'text/plain; charset=binary',
+                         b'text/plain; charset=x-user-defined', b'text/plain; charset=', b'text/plain; charset="utf-8', b'x; charset=hex',
+                         b'text/plain; charset=\xff', b'; charset', b'text/plain;;;=', b'application/octet-stream; charset=no-such-codec'])
+        i = body.find(b'\r\n\r\n')
+        return (body[:i] + b'\r\nContent-Type: ' + ct + body[i:], k) if i >= 0 else (body, k)
     if k == 'trunc':
         return body[:rng.randint(0, max(0, len(body) - 1))], k
     if k == 'dropdelim':
@@ -64,6 +84,12 @@ def run(chk):
     by_b = {}
     boundaries = [b'B', b'Bx', b'----WebKitFormBoundaryAb12', mplib.rand_boundary(rng)]
     n = 9000 if thorough else 1400
+    specs, metas = [], []
+
+    def add(b, body, ctype, buf, what, how, kind, chunked=False, cut=None, in_thread=False, full_ok=True):
+        specs.append({'buf': buf, 'body': body, 'ctype': ctype, 'what': what, 'chunked': chunked, 'seed': rng.randrange(10 ** 9),
+                      'cut_wire': cut, 'in_thread': in_thread})
+        metas.append({'b': b, 'body': body, 'ctype': ctype, 'buf': buf, 'how': how, 'what': what, 'kind': kind, 'full_ok': full_ok})
     for _ in range(n):
         b = rng.choice(boundaries)
         fs = gen_fields(rng, b, nmax=3)
@@ -73,28 +99,27 @@ def run(chk):
             body, how2 = mutate(rng, body, b)
             how += '+' + how2
         buf = rng.choice([7, 16, 64, 1000, 100 * 1024, 100 * 1024])
-        ctype = 'multipart/form-data; boundary=' + b.decode()
+        canon = 'multipart/form-data; boundary=' + b.decode()
+        ctype = canon
         r_ = rng.random()
         if r_ < 0.06:
             ctype = rng.choice(['Multipart/Form-Data; boundary=', 'MULTIPART/FORM-DATA; BOUNDARY=']) + b.decode()
         elif r_ < 0.10:
             ctype = rng.choice(['multipart/form-data', 'multipart/form-data; boundary=', 'multipart/form-data; boundary=other', 'multipart/mixed; boundary=' + b.decode()])
         what = rng.choice(['forms+files', 'forms', 'files', 'post', 'body', 'params', 'forms+files+body'])
-        res = fl.post(buf, body, ctype, what=what, chunked=rng.random() < 0.3, rng=rng, time_limit=5.0)
-        t = fl.to_trace(body, buf, 'mutated' if ctype == 'multipart/form-data; boundary=' + b.decode() else 'raw', None, res, full=what.startswith('forms+files') and res['one_piece'])
-        by_b.setdefault(b, []).append((t, {'ctype': ctype, 'buf': buf, 'how': how, 'what': what, 'errors': res.get('errors', '')}))
-        chk.count(1, ('mp', how, b, body, buf, what))
+        chunked = rng.random() < 0.3
+        cut = rng.random() if (chunked and rng.random() < 0.35) else None
+        if cut is not None:
+            how += '+framing-cut'
+        add(b, body, ctype, buf, what, how, 'mutated' if (ctype == canon and cut is None) else 'raw', chunked, cut, rng.random() < 0.25,
+            full_ok=what.startswith('forms+files'))
     # exhaustive truncation of a few forms at EVERY offset
     for b in (b'B', b'Bx'):
         for _ in range(6 if thorough else 2):
             fs = gen_fields(rng, b, nmax=2)
             good = mplib.encode_form(fs, b)
-            for cut in range(len(good)):
-                buf = rng.choice([7, 64, 1000])
-                res = fl.post(buf, good[:cut], 'multipart/form-data; boundary=' + b.decode(), what='forms+files', time_limit=5.0)
-                t = fl.to_trace(good[:cut], buf, 'mutated', None, res)
-                by_b.setdefault(b, []).append((t, {'ctype': 'multipart', 'buf': buf, 'how': 'trunc@%d' % cut, 'what': 'forms+files', 'errors': res.get('errors', '')}))
-                chk.count(1, ('trunc', b, good, cut))
+            for cut_at in range(len(good)):
+                add(b, good[:cut_at], 'multipart/form-data; boundary=' + b.decode(), rng.choice([7, 64, 1000]), 'forms+files', 'trunc@%d' % cut_at, 'mutated')
     # JSON and urlencoded and arbitrary bytes under other content types
     jsons = [b'{', b'[1]', b'3', b'', b'null', b'"s"', b'{"a": 1}', b'{"a": [1, {"b": null}]}', b'\xff\xfe', b'{"a":' + b'[' * 50, b'{"a": 1}x', b' ', b'true',
              b'{"k": "' + b'v' * 300 + b'"}', b'[' * 5000]
@@ -105,20 +130,24 @@ def run(chk):
             body = rng.choice(jsons)
         else:
             body = bytes(rng.choice(b'a=&%+;\xff\x00\r\n{}[]":1') for _ in range(rng.randint(0, 40)))
-        ctype = rng.choice(ctypes)
-        buf = rng.choice([4, 16, 100, 100 * 1024])
-        what = rng.choice(['json', 'forms', 'post', 'params', 'body', 'files', 'json+forms', 'forms+json'])
-        res = fl.post(buf, body, ctype, what=what, chunked=rng.random() < 0.3, rng=rng, time_limit=5.0)
-        t = fl.to_trace(body, buf, 'raw', None, res)
-        by_b.setdefault(b'B', []).append((t, {'ctype': ctype, 'buf': buf, 'how': 'raw', 'what': what, 'errors': res.get('errors', '')}))
-        chk.count(1, ('raw', ctype, body, buf, what))
+        chunked = rng.random() < 0.3
+        add(b'B', body, rng.choice(ctypes), rng.choice([4, 16, 100, 100 * 1024]),
+            rng.choice(['json', 'forms', 'post', 'params', 'body', 'files', 'json+forms', 'forms+json']), 'raw', 'raw', chunked,
+            rng.random() if (chunked and rng.random() < 0.35) else None, rng.random() < 0.25)
+    results = fl.post_batch(specs, time_limit=5.0)
+    for sp, m, res in zip(specs, metas, results):
+        t = fl.to_trace(m['body'], m['buf'], m['kind'], None, res, full=m['full_ok'] and m['kind'] == 'mutated' and res.get('one_piece', False))
+        by_b.setdefault(m['b'], []).append((t, {'ctype': m['ctype'], 'buf': m['buf'], 'how': m['how'], 'what': m['what'], 'errors': res.get('errors', ''),
+                                                'in_thread': sp['in_thread'], 'hang': res['hang']}))
+        chk.count(1, (m['how'], m['b'], m['body'], m['buf'], m['what'], m['ctype']))
     t0, m0 = by_b[b'B'][0]
     chk.sample({'mutation': m0['how'], 'body': bytes(t0['body']).decode('latin1')[:200], 'reads': m0['what'], 'status': t0['status']})
 
     def describe(t, m, rel, bnd):
         chk.violation('C12: %s fails: %s body %r... (Content-Type %r, max_memfile_size %s, handler reads %s) -> status %s%s %s'
                       % (rel, m['how'], bytes(t['body'])[:120], m['ctype'], m['buf'], m['what'], t['status'],
-                         ' (exception escaped)' if t['escaped'] else '', m['errors'].strip().splitlines()[-1:] if m['errors'] else ''),
+                         ' (exception escaped)' if t['escaped'] else (' (HANG: no answer within the time limit)' if m.get('hang') else '') + (' [served from a worker thread]' if m.get('in_thread') else ''),
+                         m['errors'].strip().splitlines()[-1:] if m['errors'] else ''),
                       {'body_hex': bytes(t['body']).hex()[:20000], 'ctype': m['ctype'], 'buf': m['buf'], 'what': m['what'], 'mutation': m['how'], 'clauses': rel})
     fl.validate(chk, by_b, 'C12', {'ClientErrorOnly', 'DeliveredTerminated'}, describe)
     chk.extra['assumptions'] = ['CONTENT_LENGTH is a number (the server guarantees it)', 'a request taking more than 5 s counts as a hang']
